@@ -20,7 +20,7 @@ import ast
 from engine.cfg import call_name, cfg_of, expand_aliases
 from engine.errors import AnalysisError
 from engine.repo import walk_no_nested
-from engine.util import calls_in, unparse, xsrc
+from engine.util import calls_in, local_assignments, unparse, xsrc
 
 ID = 'C19'
 PV = 'sdc11073.provider.providerimpl.SdcProvider'
@@ -451,6 +451,40 @@ def run(ctx):  # noqa: C901, PLR0912, PLR0915
         for n in ast.walk(mod.tree):
             if isinstance(n, ast.Attribute) and n.attr in ('CERT_NONE', 'CERT_OPTIONAL', '_create_unverified_context'):
                 weak.append(f'{mod.name}:{n.lineno} {n.attr}')
+    # the folder variant hands the configured CA file on whenever one is named: whether peer verification is switched on is
+    # decided by the configuration (`ca_public_key`), never by what happens to be on disk - a missing CA file must surface as
+    # an error of load_verify_locations, not as contexts that silently verify nothing
+    ff = repo.func('sdc11073.certloader.mk_ssl_contexts_from_folder')
+    gf5 = cfg_of(ff)
+    la5 = local_assignments(ff.node)
+    mcalls = [(n, c) for n, c in gf5.nodes_calling('mk_ssl_contexts')]
+    if not mcalls:
+        raise AnalysisError('C19.R5: mk_ssl_contexts_from_folder does not call mk_ssl_contexts')
+    mparams = [a.arg for a in mc.node.args.args]
+    for n, c in mcalls:
+        bound = dict(zip(mparams, c.args))
+        bound.update({k.arg: k.value for k in c.keywords if k.arg})
+        ca = bound.get(mparams[2]) if len(mparams) > 2 else None
+        names, todo, exprs = set(), [ca] if ca is not None else [], []
+        while todo:
+            e = todo.pop()
+            exprs.append(e)
+            for x in ast.walk(e):
+                if isinstance(x, ast.Name) and x.id not in names:
+                    names.add(x.id)
+                    todo.extend(la5.get(x.id, []))
+        tests = [t.test for e in exprs for t in ast.walk(e) if isinstance(t, ast.IfExp)]
+        for m in gf5.real_nodes():
+            if m.kind == 'stmt' and isinstance(m.stmt, ast.Assign) and any(isinstance(t, ast.Name) and t.id in names
+                                                                           for t in m.stmt.targets):
+                tests += [ast.parse(txt, mode='eval').body for txt, _ in gf5.facts_at(m).both()]
+        probes = [unparse(t) for t in tests if any(isinstance(x, ast.Call) for x in ast.walk(t))]
+        ok = ca is not None and not probes and not (isinstance(ca, ast.Constant) and ca.value is None)
+        ctx.ob('C19.R5', 'folder variant passes the CA file on', ok,
+               'mk_ssl_contexts_from_folder: the CA file goes to mk_ssl_contexts whenever ca_public_key names one' if ok else
+               f'mk_ssl_contexts_from_folder: whether a CA file reaches mk_ssl_contexts depends on {probes or "nothing - None is passed"}: '
+               f'with the file missing (wrong name, not deployed) TLS contexts are built without CERT_REQUIRED and every peer '
+               f'certificate is accepted', fi=ff, node=c)
     ctx.ob('C19.R5', 'no weak verification modes', not weak, 'no CERT_NONE / CERT_OPTIONAL / unverified context in src/',
            where='sdc11073', witness=weak)
 
